@@ -212,3 +212,19 @@ def register_callbacks(R):
                   f"{Wf}.n", f"{Wf}.pending", f"{Wf}.rest"],
         tags="C03 C10",
     )
+    R.module("easynetwork/lowlevel/api_async/backend/_asyncio/_flow_control.py")
+    R.inline_fn("add_flowcontrol_defaults")
+    R.module("easynetwork/lowlevel/api_async/backend/_asyncio/stream/socket.py")
+    R.shape("StreamReaderBufferedProtocolW", cls="StreamReaderBufferedProtocol",
+            fields={"__buffer": "opt[bytearray]", "__read_high_water": "int", "__read_low_water": "int"})
+    R.contract(
+        "StreamReaderBufferedProtocol._compute_read_buffer_limits", self_shape="StreamReaderBufferedProtocolW",
+        requires=[("the-internal-buffer-has-max_size-bytes (allocated by the constructor)", "not isnone(self.__buffer) and len(self.__buffer) == self.max_size")],
+        ensures=[("water-marks-ordered (the invariant the read-side contracts assume)", "0 <= self.__read_low_water and self.__read_low_water < self.__read_high_water", "C10 C03"),
+                 ("reading-is-paused-before-the-internal-buffer-can-overflow: the high-water mark lies inside the buffer "
+                  "(past it the event loop would be handed an empty buffer and drop the connection with everything pending)",
+                  "self.__read_high_water <= len(self.__buffer)", "C10 C03")],
+        raises={"ValueError": [("never", "False", "C10")]},
+        modifies=["self.__read_high_water", "self.__read_low_water"],
+        tags="C10 C03",
+    )
